@@ -37,3 +37,13 @@ package unionfind
 //@   opt nosafety
 //@   ensures result != nil ==> uf.parent[result] == result
 //@   loop 1 invariant parent == uf.parent[child]
+
+// ---- C01: two roots are the same class when they are EQUAL terms ------------------------------------------------
+// The update step decides "already unified" by the structural equality of the two representatives (Equals), not by
+// comparing interface values: structurally equal lists, pairs, maps and structs built separately are different Go
+// values. The comparison exists in the loop.
+//@ func unifyTermsUpdate(xs, ys, uf)
+//@   opt nosafety
+//@   opt assumeframe
+//@   modifies nothing
+//@   guard call Equals in loop 1: true
